@@ -223,7 +223,7 @@ def _random(ctx, spec, rng, names, dynamic):
                 let_const=2, let_rename=2, let_compose=2, cube=1, var=1,
                 add_expr=2, dup=3, drop=8, drop_many=2, gc=6, gc_rooted=3,
                 swap=4, sift=1, reorder_to=1, pairs=1, clone=1,
-                release_at_zero=2, **{'not': 1})
+                release_at_zero=2, tight=1, **{'not': 1})
     if dynamic:
         # (the rooted-collection step keeps an unreferenced result across
         # another operation, which dynamic reordering may legitimately
